@@ -50,7 +50,7 @@ func (p *c19) Rule() string {
 	return "N in 2..16 (quick) / 2..64 (thorough) devices with mixed key types, key exchanges and ciphers run DI, voucher extension, TO0, TO1 and TO2 (with a per-device ping module whose payload is derived from the device identity) concurrently as tasks of the seeded scheduler against ONE node hosting all responders over one store (simstore or sqlite); interleaving at every network event, state-backend method, module callback and verif hook of the device pipeline, plus PRNG-chosen virtual delays; in a quarter of the runs the context of device 1's TO2 is cancelled after a seeded number of scheduler steps or exactly at the n-th yield site of a chosen class of the device pipeline; binary built with the Go race detector; oracle: every device succeeds as it does alone (solo baseline of device 0 in a fresh world), its stored replacement voucher agrees with its credential (independent recomputation), module payloads received on either side are its own, no response delivered to a device contains another device's GUID, no deadlock (kernel verdict or all goroutines of the bubble blocked for good), a cancelled call returns, zero race reports whose two accesses are both in go-fdo; non-trivial = at least two tasks were runnable at some step; distinct = distinct (schedule, N, backend, outcome)"
 }
 func (p *c19) DeadlockIsViolation() bool { return true }
-func (p *c19) Exhaustive(string) bool { return false }
+func (p *c19) Exhaustive(string) bool    { return false }
 func (p *c19) Components() map[string][]string {
 	return map[string][]string{
 		"real": {"one shared http.Handler and DI/TO0/TO1/TO2 responders", "fdo client roles (one per device task)", "device TO2 pipeline goroutines", "sqlite.DB + database/sql (sql plans)", "cose/kex/cbor registries", "Go race detector"},
